@@ -466,6 +466,15 @@ func EscEnd(b []byte, i int) int {
 		}
 
 		return -1
+	case ']':
+		// operating system command: up to and including BEL
+		for j := i + 2; j < len(b); j++ {
+			if b[j] == 0x07 {
+				return j + 1
+			}
+		}
+
+		return -1
 	}
 
 	return i + 2
